@@ -59,6 +59,10 @@ def faults_for(length):
         out.append({"mode": "kill-write", "prefix": p, "readonly_dir": True})
         out.append({"mode": "raise-write", "prefix": p, "error": "nospace", "readonly_dir": True})
     out.append({"mode": "short-oswrite", "prefix": max(1, length // 2), "readonly_dir": True})
+    # a leftover '<metafile>.part' (regular file, link to the metafile, link to another file)
+    for kind in ("file", "link-to-metafile", "link-to-other"):
+        out.append({"mode": "none", "stale_part": kind})
+        out.append({"mode": "kill-write", "prefix": max(1, length // 2), "stale_part": kind})
     return out
 
 
@@ -140,7 +144,11 @@ def run_case(run, drv, case_seed, pool):
             if unenc and verdict != "old":
                 run.fail("impl-vs-spec", fc, {"why": "unencodable request changed the metafile"})
             # model tie
-            if f.get("readonly_dir"):
+            if f.get("stale_part") and os.path.exists(path + ".other") and \
+                    open(path + ".other", "rb").read() != b"an unrelated file that must survive":
+                run.fail("impl-vs-spec", fc, {"why": "the edit wrote through a leftover '.part' link into "
+                                                     "another file"})
+            if f.get("readonly_dir") or f.get("stale_part"):
                 pass        # the standing condition is outside the operation model (Effects.lean)
             elif f.get("mode") == "kill":
                 c = {0: 1, 1: 3}.get(f["k"], 4)
